@@ -63,13 +63,13 @@ CHECKS = {
         text="Per seeded scripted connection the fault points are enumerated: EOF at every input byte offset, a read error at every read call, a one-shot write error and a one-shot zero-length write at every write call, each in a fresh run replaying the script's choice list. Checked: termination without panic or spinning, no handler for an incompletely received preamble, end-of-file seen by a handler only behind a delivered terminator (short reads surface as errors), no write after a failed write, log = well-formed prefix consistent with the handler log.",
         note="Trusted: executor step cap as the spin detector (a poll that never returns would hang the check instead). Handlers propagate I/O errors.",
         technique=TECH + ": fault-point enumeration over a replayed seeded script (EOF / read error / write error / zero write at every index)"),
-    "C14": dict(engine="D2+D3", cat="exploration", ref="DESIGN.md 4/C14",
-        text="Connection side: Runner::shutdown requested as a scheduler event at a seeded step (before the first read, mid-preamble, during the handler, during close, between requests, idle); started requests complete with their EndRequest, no handler starts in a poll that begins after the request, idle connections stop without another transport read, the shutdown future is Ready only after the token is dropped and its task is woken for it. Wait group: real threads under a serialising scheduler (one baton, seeded choice of the next thread at every harness operation, Waker callback and verif-hooks point) explore the interleavings of token drops with polls of the shutdown future, including the last drop landing between the liveness check and the waker registration and between registration and the drop of the temporary reference; Ready never early, no lost wake-up.",
+    "C14": dict(engine="D2+D3+D5", cat="exploration", ref="DESIGN.md 4/C14",
+        text="Connection side: Runner::shutdown requested as a scheduler event at a seeded step (before the first read, mid-preamble, during the handler, during close, between requests, idle); started requests complete with their EndRequest, no handler starts in a poll that begins after the request, idle connections stop without another transport read, the shutdown future is Ready only after the token is dropped and its task is woken for it. Wait group: real threads under a serialising scheduler (one baton, seeded choice of the next thread at every harness operation, Waker callback and verif-hooks point) explore the interleavings of token drops with polls of the shutdown future, including the last drop landing between the liveness check and the waker registration and between registration and the drop of the temporary reference; Ready never early, no lost wake-up. The same clause is additionally sampled under Miri's seeded scheduler (64 / 4096 schedules with preemption anywhere).",
         note="Trusted: executor strictness for the wake-up clauses; the thread scheduler is sequentially consistent and does not explore interleavings inside futures' AtomicWaker. A management reply being written by an idle connection may be cut by shutdown (statement is silent).",
         technique=TECH + ": deterministic executor with shutdown as a scheduled event + serialising thread scheduler (baton) over real threads"),
-    "C13": dict(engine="D2", cat="exploration", ref="DESIGN.md 4/C13",
-        text="Seeded histories over a runner (limit 1..4) and its clones: get_token futures created, polled with their own wakers, cancelled; tokens dropped unused, run to completion on simulated connections (client closes, one request, handler panic unwinding through Token::run); after every operation the live-token count is compared with the limit and, whenever a slot is free with requests queued, at least one queued request must have been woken since it last returned Pending; first-poll and woken-poll readiness are checked. The generator is biased towards two queued requests with two releases between polls (the coalescing shape).",
-        note="Trusted: nothing inside async-lock/event-listener is modelled; they run as real code, but interleavings inside them are not explored (single thread, operation granularity).",
+    "C13": dict(engine="D2+D5", cat="exploration", ref="DESIGN.md 4/C13",
+        text="Seeded histories over a runner (limit 1..4) and its clones: get_token futures created, polled with their own wakers, cancelled; tokens dropped unused, run to completion on simulated connections (client closes, one request, handler panic unwinding through Token::run); after every operation the live-token count is compared with the limit and, whenever a slot is free with requests queued, at least one queued request must have been woken since it last returned Pending; first-poll and woken-poll readiness are checked. The generator is biased towards two queued requests with two releases between polls (the coalescing shape). Thread clause: a program with a dropper thread and an acquirer polling queued get_token futures is interpreted by Miri under 64 (quick) / 4096 (thorough) seeded schedules with preemption anywhere; afterwards no slot may be free next to an un-woken pending request.",
+        note="Trusted: nothing inside async-lock/event-listener is modelled; they run as real code; in the history driver interleavings inside them are not explored (single thread, operation granularity), in the Miri extra they are (sampled by seed, sequentially consistent plus Miri's weak-memory emulation).",
         technique=TECH + ": seeded operation histories with per-future wakers against a counter model"),
 }
 
@@ -119,6 +119,7 @@ def main():
             {"name": "D1", "path": "sim/src/d1req.rs, sim/src/d1stream.rs", "serves_properties": ["C01", "C02", "C03", "C04", "C05", "C06", "C11", "C18"], "kind_free_text": "caller-schedule simulator for the sync parsers: one seeded choice sequence decides traffic, segmentation, read chunking and caller actions; reference models M-preamble/M-stream as oracles"},
             {"name": "D2", "path": "sim/src/exec.rs, sim/src/d2*.rs", "serves_properties": ["C07", "C08", "C09", "C10", "C11", "C12", "C13", "C14"], "kind_free_text": "single-threaded deterministic executor (strict wake-only polling) + simulated AsyncRead/AsyncWrite transport with short reads/writes, Pending, EOF and error injection + open/closed-loop peer model + scripted handlers"},
             {"name": "D3", "path": "sim/src/d3.rs", "serves_properties": ["C13", "C14"], "kind_free_text": "serialising thread scheduler: real threads, one baton, seeded choice of the next holder at harness operations, waker callbacks and verif-hooks scheduling points"},
+            {"name": "D5", "path": "miri/src/main.rs, sim/src/miri.rs", "serves_properties": ["C13", "C14"], "kind_free_text": "Miri interpreter as a second thread simulator: a small program on real std threads using the real library, one exactly repeatable schedule per seed (-Zmiri-many-seeds, two preemption rates), preemption anywhere incl. inside async-lock / event-listener under their locks; replay = the seed"},
             {"name": "D4", "path": "sim/src/d4.rs", "serves_properties": ["C20"], "kind_free_text": "fault-injecting io::Write sink: short writes, Interrupted, capacity exhaustion at every byte"},
         ],
         "checks": checks,
